@@ -103,6 +103,13 @@ def _as_dtype(dt, default=float64):
     raise Unsupported("dtype %r" % (dt,))
 
 
+class dtype:
+    """np.dtype(...) -> the shim's dtype object (also usable in annotations)."""
+
+    def __new__(cls, spec=None, *a, **k):
+        return _as_dtype(spec)
+
+
 class Buffer:
     __slots__ = ('data', 'writeable', 'owner', 'writes')
 
@@ -1334,6 +1341,21 @@ def diag_indices_from(a):
     return diag_indices(asarray(a).shape[0], asarray(a).ndim)
 
 
+def take(a, indices, axis=None, out=None, mode='raise'):
+    a = asarray(a)
+    if axis is not None:
+        raise Unsupported("np.take with an axis")
+    flat = a._flat()
+    idx = asarray(indices)
+    vals = [flat[_norm_index(j, len(flat), 0)] for j in idx._flat()]
+    if out is not None:
+        if out.shape != idx.shape:
+            raise ValueError("output array does not match result of ndarray.take")
+        out[...] = ndarray._new(vals, idx.shape, a.dtype)
+        return out
+    return ndarray._new(vals, idx.shape, a.dtype)
+
+
 def fill_diagonal(a, val, wrap=False):
     n = builtins.min(a.shape)
     if isinstance(val, (ndarray, list, tuple)):
@@ -1415,6 +1437,16 @@ def _reduce_axis(a, axis, fn):
     a = asarray(a)
     if axis is None:
         return fn(a._flat())
+    if isinstance(axis, (tuple, list)):
+        axes = sorted({(x.__index__() + a.ndim) % a.ndim for x in axis}, reverse=True)
+        if len(axes) == a.ndim:
+            return fn(a._flat())
+        if len(axes) > 1 and fn not in (_sum_list,):
+            raise Unsupported("reduction over several axes other than a sum")
+        out = a
+        for ax in axes:
+            out = _reduce_axis(out, ax, fn)
+        return out
     axis = axis.__index__()
     if axis < 0:
         axis += a.ndim
@@ -2031,13 +2063,35 @@ class _Linalg(types.ModuleType):
     def eigvalsh(self, a, UPLO='L'):
         return self._call('eigvalsh', a)
 
+    def _batched(self, name, a):
+        """LAPACK-backed functions broadcast over leading axes: one contract-stub call per matrix."""
+        a = asarray(a)
+        lead = a.shape[:-2]
+        n, m = a.shape[-2:]
+        flat = a._flat()
+        return lead, [self._call(name, ndarray._new(flat[k * n * m:(k + 1) * n * m], (n, m), a.dtype))
+                      for k in range(_prod(lead))]
+
     def det(self, a):
+        if isinstance(a, ndarray) and a.ndim > 2:
+            lead, outs = self._batched('det', a)
+            return ndarray._new(outs, lead, float64)
         return self._call('det', a)
 
     def slogdet(self, a):
+        if isinstance(a, ndarray) and a.ndim > 2:
+            lead, outs = self._batched('slogdet', a)
+            return (ndarray._new([o[0] for o in outs], lead, float64),
+                    ndarray._new([o[1] for o in outs], lead, float64))
         return self._call('slogdet', a)
 
     def inv(self, a):
+        if isinstance(a, ndarray) and a.ndim > 2:
+            lead, outs = self._batched('inv', a)
+            vals = []
+            for o in outs:
+                vals.extend(asarray(o)._flat())
+            return ndarray._new(vals, a.shape, float64)
         return self._call('inv', a)
 
     def pinv(self, a):
